@@ -88,10 +88,12 @@ func (s *InMemoryKindMapper) MapKinds(ctx context.Context, kinds graph.Kinds) ([
 }
 
 func (s *InMemoryKindMapper) AssertKinds(ctx context.Context, kinds graph.Kinds) ([]int16, error) {
-	ids, missing := s.mapKinds(kinds)
+	// The ids are returned position-wise in the order of kinds, whether or not a kind was already registered. Put
+	// returns the existing id of a known kind under the write lock.
+	ids := make([]int16, len(kinds))
 
-	for _, kind := range missing {
-		ids = append(ids, s.Put(kind))
+	for idx, kind := range kinds {
+		ids[idx] = s.Put(kind)
 	}
 
 	return ids, nil
